@@ -30,7 +30,14 @@ fn local(q: &str) -> &str {
     q.rsplit(':').next().unwrap_or(q)
 }
 
+/// marks an attribute value of an *expected* tree that is exact (built from character references:
+/// no white-space normalisation applies to it)
+const EXACT: char = '\u{E000}';
+
 fn norm_attr(s: &str) -> String {
+    if let Some(exact) = s.strip_prefix(EXACT) {
+        return exact.to_string();
+    }
     s.chars().map(|c| if c == '\t' || c == '\n' || c == '\r' { ' ' } else { c }).collect()
 }
 
@@ -114,7 +121,7 @@ impl<'a> CliGen<'a> {
                 }
                 let mut v = self.word(0, 4);
                 if self.rng.pct(10) {
-                    v.push_str(self.rng.ps(&["\t", "'", ">"]));
+                    v.push_str(self.rng.ps(&["\t", "'", ">", "&", "<", "\"", "a&b", "'\"", "&lt;"]));
                 }
                 attrs.push((an, v));
             }
@@ -171,8 +178,16 @@ pub fn render(g: &G, root: bool, out: &mut String) {
                 out.push_str(&format!(" xmlns:p=\"{}\"", u));
             }
             for (k, v) in attrs {
-                let q = if v.contains('"') { '\'' } else { '"' };
-                out.push_str(&format!(" {}={}{}{}", k, q, v.replace('<', "&lt;"), q));
+                // `v` is the value the attribute denotes; written with the references it needs
+                let esc = v.replace('&', "&amp;").replace('<', "&lt;");
+                let (q, esc) = if esc.contains('"') && esc.contains('\'') {
+                    ('"', esc.replace('"', "&quot;"))
+                } else if esc.contains('"') {
+                    ('\'', esc)
+                } else {
+                    ('"', esc)
+                };
+                out.push_str(&format!(" {}={}{}{}", k, q, esc, q));
             }
             if kids.is_empty() {
                 out.push_str("/>");
@@ -887,7 +902,7 @@ pub fn gen_case(seed: u64, id: u64) -> Case {
                     0 => G::Comment(g.word(0, 3)),
                     1 => G::PI("t".into(), g.word(0, 2).trim_start().to_string()),
                     _ => {
-                        let (s, c) = *g.rng.pick(&[("&#38;", "&"), ("&#x26;", "&"), ("&#x3C;", "<"), ("&#0060;", "<"), ("&#233;", "é"), ("&#xE9;", "é")]);
+                        let (s, c) = *g.rng.pick(&[("&#38;", "&"), ("&#x26;", "&"), ("&#x3C;", "<"), ("&#0060;", "<"), ("&#233;", "é"), ("&#xE9;", "é"), ("&#10;", "\n"), ("&#9;", "\t"), ("&#x3c;", "<"), ("&#038;", "&")]);
                         G::CharRef(s.to_string(), c.to_string())
                     }
                 },
@@ -1070,11 +1085,15 @@ pub fn gen_case(seed: u64, id: u64) -> Case {
                 for k in &vkids {
                     string_value(k, &mut sv);
                 }
+                // a character reference to white space keeps the character (no normalisation): listed finding
+                if vkids.iter().any(|k| matches!(k, G::CharRef(_, c) if c == "\n" || c == "\t")) {
+                    gate = "xe_attribute_value_whitespace_reference".into();
+                }
                 for p in &paths {
                     if let Some(G::El { attrs, .. }) = get_mut(&mut r, p) {
                         for (k, v) in attrs.iter_mut() {
                             if k == a {
-                                *v = sv.clone();
+                                *v = format!("{}{}", EXACT, sv);
                             }
                         }
                     }
